@@ -298,13 +298,13 @@ def compileBegin (isFn : Nat â†’ Bool) (c : Ctx) : List Expr â†’ G (List Instr Ã
     let (b, t) â† compileBegin isFn c es
     pure (a ++ (if a.isEmpty then [] else [.pop]) ++ b, t)
 
-/-- the arms of `GenerateCond`: the test with a reset sub-generator (`Tail` false,
-`scopes` 0), the body with the parent's flags. -/
+/-- the arms of `GenerateCond`: the test with `Tail` false (and, after fix C04-06, the
+parent's scope count), the body with the parent's flags. -/
 def compileArms (isFn : Nat â†’ Bool) (c : Ctx) : List (Expr Ã— Expr) â†’ G (List (List Instr Ã— List Instr))
   | [] => pure []
   | (p, b) :: arms => do
     let rest â† compileArms isFn c arms
-    let (pc, _) â† compile isFn { c with tail := false, scopes := 0 } p
+    let (pc, _) â† compile isFn { c with tail := false } p
     let (bc, _) â† compile isFn c b
     pure ((pc, bc) :: rest)
 
